@@ -3,5 +3,5 @@ package cli
 import "testing"
 
 func TestC04(t *testing.T) {
-	runProfile(t, profStage, runOpts{weights: stageWeights, fullContent: true, seedFiles: 2})
+	runProfile(t, profStage, runOpts{weights: stageWeights, fullContent: true, seedFiles: 2, decorate: true})
 }
